@@ -152,3 +152,111 @@ Section GenerateFacts.
     py_truth private = false -> reg_gen true KOct i private = Err EValue.
   Proof. intro F. unfold registry_generate, class_generate. rewrite F. reflexivity. Qed.
 End GenerateFacts.
+
+(* ------------------------------------------------------------------ *)
+(* histories: no sequence of exporting calls makes a public export leak *)
+(* ------------------------------------------------------------------ *)
+Section HistoryFacts.
+  Variable H : kd -> str.
+  Variable reg : list kparam.
+  Variable is_priv : bool.
+  Hypothesis kid_public : member_private reg s_kid = false.
+
+  (* invariant: the state differs from the initial dict at most by a generated kid *)
+  Definition same_but_kid (d0 d : kd) : Prop := forall m, m <> s_kid -> dget d m = dget d0 m.
+
+  Lemma step_invariant d0 d o :
+    same_but_kid d0 d -> same_but_kid d0 (fst (step H reg is_priv d o)).
+  Proof.
+    intros I. destruct o as [private params| |]; simpl; try exact I.
+    destruct (ensure_kid H reg d) as [d'|e] eqn:E; simpl; [|exact I].
+    intros m N. rewrite (ensure_kid_other H reg d d' m E N). apply I. exact N.
+  Qed.
+
+  Lemma history_invariant ops : forall d0 d,
+    same_but_kid d0 d -> same_but_kid d0 (fst (run_history H reg is_priv d ops)).
+  Proof.
+    induction ops as [|o r IH]; intros d0 d I; simpl; [exact I|].
+    destruct (step H reg is_priv d o) as [d1 out] eqn:S.
+    destruct (run_history H reg is_priv d1 r) as [d2 outs] eqn:R. simpl.
+    pose proof (IH d0 d1) as IH'. rewrite R in IH'. simpl in IH'. apply IH'.
+    pose proof (step_invariant d0 d o I) as SI. rewrite S in SI. exact SI.
+  Qed.
+
+  (* every public export in any history, whatever happened before (private exports,
+     exports with params, kid generation, thumbprints): no private member, and the
+     non-private members other than kid are those of the initial key *)
+  Lemma history_public_exports ops : forall d0 d out,
+    same_but_kid d0 d ->
+    In (RDict (Ok out)) (snd (run_history H reg is_priv d ops)) ->
+    (exists private params, In (OAsDict private params) ops /\
+       ((is_False private = true ->
+           (forall m, In m (dkeys out) -> member_private reg m = false \/ In m (dkeys params))) /\
+        (forall m, m <> s_kid -> dget (rev params) m = None ->
+           dget out m = if is_False private && member_private reg m then None else dget d0 m))).
+  Proof.
+    induction ops as [|o r IH]; intros d0 d out I Hin; simpl in Hin; [destruct Hin|].
+    destruct (step H reg is_priv d o) as [d1 o1] eqn:S.
+    destruct (run_history H reg is_priv d1 r) as [d2 outs] eqn:R. simpl in Hin.
+    destruct Hin as [E|Hin].
+    - destruct o as [private params| |]; simpl in S; try (injection S as <- <-; discriminate);
+        [| destruct (ensure_kid H reg d); injection S as <- <-; discriminate ].
+      injection S as <- <-. injection E as E.
+      exists private, params. split; [left; reflexivity|]. split.
+      + intros F m Hm. destruct private as [|[]| | | | | |]; try discriminate.
+        exact (as_dict_false_members _ _ _ _ _ _ E Hm).
+      + intros m N P. unfold as_dict in E.
+        destruct (py_truth private && negb is_priv); [discriminate|].
+        destruct (is_False private) eqn:F; simpl in E; injection E as <-; rewrite dget_dupdate, P; simpl.
+        * rewrite strip_private_is_pub_view. destruct (member_private reg m) eqn:M.
+          -- apply pub_view_get_private. exact M.
+          -- rewrite pub_view_get_public by exact M. apply I. exact N.
+        * apply I. exact N.
+    - assert (same_but_kid d0 d1) as I1.
+      { pose proof (step_invariant d0 d o I) as SI. rewrite S in SI. exact SI. }
+      pose proof (IH d0 d1 out I1) as IH'. rewrite R in IH'. simpl in IH'.
+      destruct (IH' Hin) as [private [params [A B]]].
+      exists private, params. split; [right; exact A | exact B].
+  Qed.
+End HistoryFacts.
+
+Section HistoryPaired.
+  Variable H : kd -> str.
+  Variable reg : list kparam.
+  Variable is_priv : bool.
+
+  Lemma run_history_length ops : forall d,
+    length (snd (run_history H reg is_priv d ops)) = length ops.
+  Proof.
+    induction ops as [|o r IH]; intro d; simpl; [reflexivity|].
+    destruct (step H reg is_priv d o) as [d1 o1].
+    specialize (IH d1). destruct (run_history H reg is_priv d1 r) as [d2 outs]. simpl in *.
+    rewrite IH. reflexivity.
+  Qed.
+
+  (* the i-th output belongs to the i-th operation: for every public export
+     as_dict(private=False, **params) anywhere in any history *)
+  Lemma history_public_paired ops : forall d0 d params r,
+    same_but_kid d0 d ->
+    In (OAsDict (PBool false) params, r) (combine ops (snd (run_history H reg is_priv d ops))) ->
+    exists out, r = RDict (Ok out) /\
+      (forall m, In m (dkeys out) -> member_private reg m = false \/ In m (dkeys params)) /\
+      (forall m, member_private reg m = true -> dget (rev params) m = None -> dget out m = None) /\
+      (forall m, member_private reg m = false -> m <> s_kid -> dget (rev params) m = None ->
+                 dget out m = dget d0 m).
+  Proof.
+    induction ops as [|o rest IH]; intros d0 d params r I Hin; simpl in Hin; [destruct Hin|].
+    destruct (step H reg is_priv d o) as [d1 o1] eqn:S.
+    destruct (run_history H reg is_priv d1 rest) as [d2 outs] eqn:R. simpl in Hin.
+    destruct Hin as [E|Hin].
+    - injection E as -> <-. simpl in S. injection S as <- <-.
+      rewrite as_dict_false. eexists. split; [reflexivity|]. repeat split.
+      + intros m Hm. apply dkeys_dupdate in Hm. destruct Hm as [Hm|Hm];
+          [left; exact (pub_view_keys _ _ _ Hm) | right; exact Hm].
+      + intros m M P. rewrite dget_dupdate, P. apply pub_view_get_private. exact M.
+      + intros m M N P. rewrite dget_dupdate, P, pub_view_get_public by exact M. apply I. exact N.
+    - assert (same_but_kid d0 d1) as I1.
+      { pose proof (step_invariant H reg is_priv d0 d o I) as SI. rewrite S in SI. exact SI. }
+      pose proof (IH d0 d1 params r I1) as IH'. rewrite R in IH'. simpl in IH'. exact (IH' Hin).
+  Qed.
+End HistoryPaired.
